@@ -10,6 +10,19 @@ use std::collections::HashMap;
 use std::rc::Rc;
 use target_scheme::TargetScheme;
 
+/// Escape a string so that it can be spliced between the double quotes of a Scheme string literal
+pub(crate) fn escape_string(raw: &str) -> String {
+    let mut escaped = String::with_capacity(raw.len());
+    for c in raw.chars() {
+        match c {
+            '\\' => escaped.push_str("\\\\"),
+            '"' => escaped.push_str("\\\""),
+            c => escaped.push(c),
+        }
+    }
+    escaped
+}
+
 /// Information collected about the compilation
 pub struct CompiledExpression {
     policy_body: String,
